@@ -78,6 +78,76 @@ def make_local():
 def gen():
     yield 1
 
+# ---- classes whose (qualified) name does not denote them any more -----------------------------
+import functools
+def singleton(cls):
+    instances = {}
+    @functools.wraps(cls)
+    def get_instance(*args, **kwargs):
+        if cls not in instances:
+            instances[cls] = cls(*args, **kwargs)
+        return instances[cls]
+    return get_instance
+@singleton
+class Registry:                     # the name denotes the accessor function
+    def __init__(self):
+        self.entries = 0
+class _Proxy:
+    def __init__(self, cls):
+        self._cls = cls
+    def __call__(self):
+        return self._cls()
+@_Proxy
+class Service:                      # the name denotes a wrapper object (not a class)
+    def __init__(self):
+        self.port = 80
+class Settings:
+    def __init__(self):
+        self.verbose = False
+Settings = Settings()               # the name denotes the only instance
+class Point:
+    def __init__(self):
+        self.x = 0
+ORIGIN = Point()
+class Point:                        # defined twice: the name denotes the second class
+    def __init__(self):
+        self.x = 0
+        self.y = 0
+class Holder:
+    class Part:
+        def __len__(self):
+            return 1
+    class Node:
+        def __init__(self):
+            self.k = 1
+    class Tail:
+        pass
+class _OtherPart:
+    def __len__(self):
+        return 5
+_part0 = Holder.Part()
+_node0 = Holder.Node()
+_tail0 = Holder.Tail()
+Holder.Part = _OtherPart            # nested name rebound to another class
+Holder.Node = len                   # nested name rebound to a builtin function
+del Holder.Tail                     # nested name gone
+def old_part():
+    return _part0
+def old_node():
+    return _node0
+def old_tail():
+    return _tail0
+class Gone:
+    pass
+_gone0 = Gone()
+del Gone                            # the name is gone
+def gone():
+    return _gone0
+class Masked:                       # __qualname__ names another (ordinary) class
+    pass
+Masked.__qualname__ = "Plain"
+Same = Plain                        # a second name for an ordinary class (control)
+
 # ---- classes with mutable nested state, driven by scripts (history cases) ----------------------
 _installed_ = []
 def _reset_(static, mod):
@@ -210,9 +280,18 @@ class Pile:
         return _run_(self, script)
 '''
 
+# instances of classes of the module under test whose qualified name, looked up from the module, denotes
+# something else (a function, a wrapper object, an instance, another class, nothing) — and controls
+REBOUND = {
+    "sut_singleton": "Registry()", "sut_proxied": "Service()", "sut_rebound_instance": "Settings",
+    "sut_redefined_old": "ORIGIN", "sut_redefined_new": "Point()", "sut_nested_other": "old_part()",
+    "sut_nested_nonclass": "old_node()", "sut_nested_deleted": "old_tail()", "sut_deleted": "gone()",
+    "sut_masked": "Masked()", "sut_second_name": "Same()",
+}
 OPAQUE_KINDS = ["dict_keys", "function", "list_iterator", "range", "frozenset", "bytearray", "memoryview",
                 "ellipsis", "object", "sut_plain", "sut_sized", "sut_nested", "sut_local", "fraction",
-                "ordereddict", "deque", "generator", "module", "type", "notimplemented", "dict_values"]
+                "ordereddict", "deque", "generator", "module", "type", "notimplemented", "dict_values",
+                *REBOUND]
 PLAIN_ENUMS = [("Color", "RED"), ("Color", "GREEN"), ("Color", "BLUE"), ("Shade", "DARK"), ("Shade", "light_1")]
 ODD_ENUMS = [("IntE", "A"), ("IntE", "B"), ("StrE", "A"), ("MixI", "A"), ("MixI", "B"), ("Fl", "A"), ("Fl", "A|B")]
 
@@ -228,6 +307,8 @@ def sut_module():
 
 def make_opaque(kind):
     m = sut_module()
+    if kind in REBOUND:
+        return eval("m." + REBOUND[kind], {"m": m})  # noqa: S307 - the harness's own table
     return {
         "dict_keys": lambda: {1: 2}.keys(), "function": lambda: m.make_local, "list_iterator": lambda: iter([1]),
         "range": lambda: range(3), "frozenset": lambda: frozenset({1, 2}), "bytearray": lambda: bytearray(b"ab"),
@@ -289,7 +370,7 @@ def enc20(v):
     ln = None
     if isinstance(v, collections.abc.Sized):
         ln = len(v)
-    return {"obj": {"module": t.__module__, "qual": t.__qualname__.split("."), "len": ln}}
+    return {"obj": dict(type_id(t), len=ln)}
 
 
 class NotModelled(Exception):
@@ -304,7 +385,10 @@ HIST_OPAQUE = {
     "dict_keys": "{1: 2}.keys()", "deque": "__import__('collections').deque([1, 2])",
     "fraction": "__import__('fractions').Fraction(1, 3)", "memoryview": "memoryview(b'abc')",
     "notimplemented": "NotImplemented", "generator": ALIAS + ".gen()",
+    **{k: ALIAS + "." + e for k, e in REBOUND.items()},
 }
+# what a statement of a history case can bind a variable to (besides constructors and `do` calls)
+HIST_BIND = sorted([*REBOUND, "sut_plain", "sut_nested", "sut_local", "sut_sized"])
 # hashable AND with a hash that does not depend on the object's address (the execution and the replay build
 # their own objects: an address-hashed set element would make `set.pop()` / iteration order differ)
 HIST_OPAQUE_HASHABLE = ["range", "frozenset", "ellipsis", "fraction"]
@@ -365,6 +449,8 @@ def script_expr(x) -> str:
 
 
 def stmt_code(i: int, st) -> str:
+    if "bind" in st:
+        return f"var_{i} = {HIST_OPAQUE[st['bind']]}"
     if "new" in st:
         args = [script_expr(st.get("fields", []))]
         if st["new"] == "Store":
@@ -379,8 +465,56 @@ def ignored_attr(name: str, value) -> bool:
             or isinstance(value, (types.ModuleType, staticmethod, classmethod, property)))
 
 
+_SERIALS: dict = {}   # (module, qualname) → the class objects seen with these names (kept alive)
+_OBJ_IDS: dict = {}
+_OBJ_KEEP: list = []
+
+
 def type_id(t) -> dict:
-    return {"module": t.__module__, "qual": t.__qualname__.split(".")}
+    """A class object: its names plus which of the classes with these names it is (identity)."""
+    known = _SERIALS.setdefault((t.__module__, t.__qualname__), [])
+    for k, c in enumerate(known):
+        if c is t:
+            return {"module": t.__module__, "qual": t.__qualname__.split("."), "serial": k}
+    known.append(t)
+    return {"module": t.__module__, "qual": t.__qualname__.split("."), "serial": len(known) - 1}
+
+
+def py_ref(o) -> dict:
+    """An object by identity, as the model's `PyRef`."""
+    if isinstance(o, type):
+        return {"cls": type_id(o)}
+    k = _OBJ_IDS.get(id(o))
+    if k is None:
+        k = _OBJ_IDS[id(o)] = len(_OBJ_IDS)
+        _OBJ_KEEP.append(o)
+    return {"other": k}
+
+
+def world_facts(types):
+    """The interpreter state `_is_type_importable` and the exported file look at, as far as the qualified
+    names of `types` lead: `getattr(owner, part, None)` edges between objects (by identity) from `builtins` and
+    from the module under test.  The decision (does the walk end at the class itself?) is the model's."""
+    import builtins
+    m = sys.modules.get(SUT)
+    edges, seen = [], set()
+    for t in types:
+        owner = builtins if t.__module__ == "builtins" else m if t.__module__ == SUT else None
+        for part in t.__qualname__.split("."):
+            if owner is None:
+                break
+            nxt = getattr(owner, part, None)
+            if nxt is None:
+                break
+            e = [py_ref(owner), part, py_ref(nxt)]
+            k = vcommon.jdump(e)
+            if k not in seen:
+                seen.add(k)
+                edges.append(e)
+            owner = nxt
+    te = {"moduleName": SUT, "builtins": py_ref(builtins), "sutModule": None if m is None else py_ref(m),
+          "getattr": edges}
+    return te, [[ALIAS, py_ref(m)]]
 
 
 class HeapEncoder:
@@ -533,11 +667,15 @@ class C20(PropertyCheck):
     n_search = 30000
     rule = ("random observed values: nested lists/tuples/sets/dicts (depth ≤ 6, so also beyond is_assertable's "
             "limit), ints up to 4500 digits, all float specials/subnormals/random bit patterns, str/bytes with "
-            "arbitrary code points, complex, plain / mixin / Flag enum members, 21 kinds of non-assertable objects "
-            "(unbound builtin types, module-level / nested / function-local SUT classes, foreign types); "
+            "arbitrary code points, complex, plain / mixin / Flag enum members, 32 kinds of non-assertable objects "
+            "(unbound builtin types, module-level / nested / function-local SUT classes, foreign types, instances of "
+            "SUT classes whose qualified name is rebound: @singleton accessor function, wrapper object, module-level "
+            "instance, class defined twice, nested name rebound to another class / a function / deleted, deleted "
+            "module-level name, borrowed __qualname__, plus a second name for an ordinary class); "
             "non-trivial = distinct value that is a collection, a float, a complex, an enum, an object, or a "
-            "negative / huge int; 10 % history cases: test cases of 2-6 statements (constructors of three classes of "
-            "the synthetic module, `obj.do(script)` calls) executed by the real TestCaseExecutor + "
+            "negative / huge int; 8 % history cases: test cases of 2-6 statements (constructors of three classes of "
+            "the synthetic module, `obj.do(script)` calls, variables bound to instances of the rebound-name classes — "
+            "also present as public module attributes and as attribute values) executed by the real TestCaseExecutor + "
             "RemoteAssertionTraceObserver, scripts mutate nested containers held by instance / class / module "
             "attributes in place (append, insert, pop, setitem, add, clear at a path), rebind and delete attributes, "
             "share containers between attributes and objects, return primitives / the object / a new object / a "
@@ -552,6 +690,11 @@ class C20(PropertyCheck):
         "its resolution by attribute access is Python's (done by exec in the replay)",
         "history cases: the statements' effect on the object graph is not modelled (module under test); the model "
         "gets the heap snapshot of every position from the replay",
+        "the `getattr(owner, part, None)` edges between objects (by identity) along the qualified name of every "
+        "observed type, from `builtins` and from the module under test, are inputs of the model (read off the live "
+        "interpreter by the harness); whether the walk ends at the class object itself is decided by the model; "
+        "`isinstance` is modelled for exact types (and bool/int) only — no subclassing, `__instancecheck__`, or names "
+        "bound to tuples of classes in the synthetic module",
         "history cases: test variables are never bound to enum members (their class would become a static-field "
         "owner) or to type / module objects; statements do not raise",
     ]
@@ -610,7 +753,7 @@ class C20(PropertyCheck):
         return {"d": [[self._rand(rng, depth - 1, True), self._rand(rng, depth - 1, False)] for _ in range(n)]}
 
     # ---- history cases ------------------------------------------------------------------------
-    hist_share = 0.1
+    hist_share = 0.08
 
     def _hscalar(self, rng, hashable):
         r = rng.random()
@@ -764,6 +907,10 @@ class C20(PropertyCheck):
         add(first)
         objs = [0]
         for _ in range(rng.choice([1, 2, 2, 3, 4])):
+            if rng.random() < 0.2:
+                # a variable bound to an object whose class cannot (or can) be referenced by its qualified name
+                add({"bind": rng.choice(HIST_BIND)})
+                continue
             if rng.random() < 0.15:
                 add({"new": rng.choice(["Box", "Box", "Pile"]), "fields": fields()})
                 objs.append(len(stmts) - 1)
@@ -771,6 +918,11 @@ class C20(PropertyCheck):
             on = rng.choice(objs)
             add({"on": on, "script": self._gen_script(rng, ns[f"var_{on}"], sim)})
             got = ns[f"var_{len(stmts) - 1}"]
+            if isinstance(got, enum.Enum) and stmts[-1]["script"][-1][0] == "ret":
+                # the script changed what its own `ret get` path points at: a variable bound to an enum member is
+                # outside the modelled domain (see `assumptions`); the mutations stay, only the result changes
+                stmts[-1]["script"][-1] = ["ret", "count"]
+                got = ns[f"var_{len(stmts) - 1}"] = 0
             if type(got).__name__ in ("Store", "Box", "Pile") and type(got).__module__ == "c20sim":
                 objs.append(len(stmts) - 1)
         return {"kind": "hist", "stmts": stmts, "prec": rng.choice([0.01, 0.01, 0.5, 1e-9])}
@@ -787,14 +939,6 @@ class C20(PropertyCheck):
             type(self)._executor = TestCaseExecutor(SubjectProperties(), maximum_test_execution_timeout=300,
                                                     test_execution_time_per_statement=100)
         return self._executor
-
-    def _type_facts(self, t, ns):
-        path = [t.__qualname__] if t.__module__ == "builtins" else [ALIAS, *t.__qualname__.split(".")]
-        try:
-            reaches = eval(".".join(path) if t.__module__ != "builtins" else t.__qualname__, dict(ns)) is t  # noqa: S307
-        except Exception:
-            reaches = False
-        return type_id(t), path, reaches
 
     def _impl_hist(self, case):
         import libcst as cst
@@ -880,12 +1024,10 @@ class C20(PropertyCheck):
         out = {"hist": True, "positions": positions, "codes": codes}
         line = None
         if modelled:
-            facts = [self._type_facts(t, ns) for t in [list, tuple, set, dict, *enc.types.values()]]
+            te, globs = world_facts([list, tuple, set, dict, *enc.types.values()])
             line = vcommon.jdump({
                 "op": "hist", "prec": cc.enc_float(case["prec"]), "lim": INT_LIMIT, "alias": ALIAS,
-                "te": {"moduleName": SUT, "resolves": [tid for tid, _, ok in facts if ok]},
-                "ns": {"enums": [], "types": [[path, tid] for tid, path, ok in facts if ok], "pytest": True},
-                "positions": snaps})
+                "te": te, "ns": {"enums": [], "globals": globs, "pytest": True}, "positions": snaps})
         m._reset_((), ())
         return out, line
 
@@ -972,17 +1114,8 @@ class C20(PropertyCheck):
                 r["detail"] = type(e).__name__ + ": " + str(e)[:60]
             res.append(r)
         out["assertions"] = res
-        # environment facts for the model: does the rendered type path reach the type here?
-        t = type(v)
-        tid = {"module": t.__module__, "qual": t.__qualname__.split(".")}
-        path = t.__qualname__ if t.__module__ == "builtins" else ALIAS + "." + t.__qualname__
-        try:
-            reaches = eval(path, dict(ns)) is t  # noqa: S307
-        except Exception:
-            reaches = False
-        out["type"] = tid
-        out["resolves"] = reaches
-        out["path"] = [t.__qualname__] if t.__module__ == "builtins" else [ALIAS, *t.__qualname__.split(".")]
+        # environment facts for the model: the objects the qualified name of the value's type leads to
+        out["te"], out["globals"] = world_facts([type(v)])
         if not hasattr(self, "_lines"):
             self._lines = {}
         self._lines[id(case)] = self._line(case, out)
@@ -1000,8 +1133,8 @@ class C20(PropertyCheck):
         enums = ["Color", "Shade"] if case["ns"] == "bound" else []
         return vcommon.jdump({
             "op": "check", "v": io["actual"], "src": "var_0", "prec": cc.enc_float(case["prec"]), "lim": INT_LIMIT,
-            "te": {"moduleName": SUT, "resolves": [io["type"]] if io["resolves"] else []}, "alias": ALIAS,
-            "ns": {"enums": enums, "types": [[io["path"], io["type"]]] if io["resolves"] else [], "pytest": True}})
+            "te": io["te"], "alias": ALIAS,
+            "ns": {"enums": enums, "globals": io["globals"], "pytest": True}})
 
     def _compare_hist(self, io, mo):
         mp = mo.get("positions")
@@ -1072,7 +1205,7 @@ class C20(PropertyCheck):
                 return "complex-nan-component"
             return "object-assertion-fails"
         if kind == "isinstance":
-            return "type-not-resolvable"
+            return "type-name-denotes-another-class" if a.get("eval") is False else "type-not-resolvable"
         return kind + "-assertion-fails"
 
     def _oracle_hist(self, case, io):
@@ -1117,7 +1250,10 @@ class C20(PropertyCheck):
                 self.count("hist:inner-container-mutated-in-place")
             if any(step[0] == "link" or step[:2] == ["ret", "box"] for sc in scripts for step in sc):
                 self.count("hist:shared-container")
-            return vcommon.jdump(case["stmts"]) if scripts else None
+            binds = [st["bind"] for st in case["stmts"] if "bind" in st]
+            if any(b in REBOUND for b in binds):
+                self.count("hist:variable-of-class-with-rebound-name")
+            return vcommon.jdump(case["stmts"]) if scripts or binds else None
         v = case["v"]
         if isinstance(v, dict):
             (k, x), = v.items()
@@ -1128,6 +1264,8 @@ class C20(PropertyCheck):
             if k in ("s", "b"):
                 return None if all(c < 128 for c in x) else vcommon.jdump(v)
             self.count("kind:" + k)
+            if k == "o" and x in REBOUND:
+                self.count("kind:o:class-name-rebound")
             return vcommon.jdump([v, case["ns"]])
         return None
 
